@@ -22,6 +22,7 @@ Global Instance NumR : Num R := {
   n_rint := fun x => IZR (ZnearestE x);
   n_cast := r_cast;
   n_nan_to_num := fun x => x;
+  n_mul_py := fun x k => Rmult x (@B2R 53%Z 1024%Z k);
   n_eqb := fun x y => if Req_EM_T x y then true else false;
 }.
 
